@@ -70,6 +70,26 @@ def _merge_kwargs(op):
     return kw
 
 
+def _strategy(out):
+    """How dask lowers this merge: a label for the failure signature and the evidence counters, never part of the
+    oracle.  'broadcast-side-flipped': the BroadcastJoin node broadcasts the other side than the one Merge chose."""
+    try:
+        top = next((n for n in out.expr.walk() if type(n).__name__ == "Merge"), None)
+        for n in out.optimize(fuse=False).expr.walk():
+            nm = type(n).__name__
+            if nm == "BroadcastJoin":
+                if top is not None and top.broadcast_side != n.broadcast_side:
+                    return "broadcast-side-flipped"
+                return "broadcast-" + n.broadcast_side
+            if nm == "HashJoinP2P":
+                return "p2p"
+            if nm == "BlockwiseMerge":
+                return "hash" if any("Shuffle" in type(m).__name__ for m in n.walk()) else "blockwise"
+    except Exception:  # noqa: BLE001 - label only; the failure itself is reported by the compute below
+        return "unknown"
+    return "other"
+
+
 def check_merge(spec):
     import dask.dataframe as dd
 
@@ -98,6 +118,9 @@ def check_merge(spec):
         dkw["indicator"] = op["indicator"]
     with impl("merge", **sig), C.quiet(), _cfg(op["method"]):
         out = dd.merge(ld, rd, **dkw)
+        sig["strategy"] = _strategy(out)
+    count("strategy-" + sig["strategy"])
+    with impl("merge", **sig), C.quiet(), _cfg(op["method"]):
         got = F.compute(out)
     with_index = op["mode"] == "index"
     C.same_rows(got, want, what=f"merge({kw}, broadcast={op['broadcast']}) of {ld.npartitions}x{rd.npartitions} partitions", sig=sig, with_index=with_index, meta=out._meta)
